@@ -80,5 +80,25 @@ log2 = RelLog()
 log2.add("swap", "onset.f_measure", call(me.onset.f_measure, a, b, window=0.25), call(me.onset.f_measure, a, b, window=0.25), {})
 r, _ = log2.judge()
 expect("Trace_Rel: second outcome NOT swapped", [{"clause": x[2], "tid": 1} for x in r], "biteq")
+# Trace_C05 kind "velocity": recorded transcription_velocity.match_notes calls; one kept pair dropped / one rejected pair added
+vev = [e for e in C05.record_traces(me, random.Random(11), 120, 6) if e["kind"] == "velocity" and len(e["inner"]) >= 2]
+keep = [e for e in vev if 0 < len(e["m"]) < len(e["inner"])][:4] or vev[:4]
+for k, e in enumerate(keep):
+    e["tid"] = k + 1
+    e.setdefault("snaps", [])
+r, _ = trace.validate("Trace_C05", keep)
+expect_clean("Trace_C05/velocity: recorded velocity matchings", r)
+bad = copy.deepcopy(keep)
+bad[0]["m"] = bad[0]["m"][:-1]                                                  # a pair within tolerance is missing from the result
+if len(bad) > 1:
+    extra = [p_ for p_ in bad[1]["inner"] if p_ not in bad[1]["m"]]
+    bad[1]["m"] = bad[1]["m"] + extra[:1]                                       # a pair outside the tolerance was kept
+    bad[1]["count"] = len(bad[1]["m"])
+bad[0]["count"] = len(bad[0]["m"])
+r, _ = trace.validate("Trace_C05", bad)
+expect("Trace_C05/velocity: kept pair removed", r, "velocity-hit-dropped", tid=1)
+if len(bad) > 1 and extra:
+    expect("Trace_C05/velocity: rejected pair added", r, "velocity-miss-kept", tid=2)
+
 print("BINDING SELF-TEST", "PASSED" if ok else "FAILED")
 sys.exit(0 if ok else 1)
